@@ -56,7 +56,8 @@ impl Visitor for SuspiciousReverseLoopVisitor {
                 ..
             } = node.start();
             if let ast::Expression::Number(number) = node.end();
-            if str::parse::<f32>(&number.token().to_string()).ok() <= Some(1.0);
+            if let Ok(end) = str::parse::<f64>(&number.token().to_string());
+            if end <= 1.0;
             then {
                 self.positions.push((
                     node.start().start_position().unwrap().bytes(),
